@@ -826,6 +826,43 @@ func (c *Ctx) r025(pk *packages.Package) {
 			}
 		}
 		c.R.Check(p == nil, rule, construct, c.pos(x.Stmt), "AddUndeclared("+ref+") up the Parent chain on all paths", "a hoisted variable is not registered as undeclared in the intermediate scopes: a local of such a scope can be renamed to the same short name (capture)")
+		// every scope on the way gets the name: inside the walking loop no path from its condition to the step to Parent
+		// goes around the registration (a block scope that declares nothing today can receive declarations later, when
+		// optimizeStmtList merges a block into it)
+		ast.Inspect(fd.Body, func(z ast.Node) bool {
+			fs, ok := z.(*ast.ForStmt)
+			if !ok || fs.Cond == nil {
+				return true
+			}
+			var step ast.Node
+			ast.Inspect(fs.Body, func(q ast.Node) bool {
+				if as, ok := q.(*ast.AssignStmt); ok && len(as.Lhs) == 1 && len(as.Rhs) == 1 && str(as.Rhs[0]) == str(as.Lhs[0])+".Parent" {
+					step = as
+				}
+				return true
+			})
+			if step == nil || len(findCalls(info, fs.Body, false, pjs+".(Scope).AddUndeclared")) == 0 {
+				return true
+			}
+			var from []*flow.Node
+			var goal *flow.Node
+			for _, y := range g.Nodes {
+				if y.Kind == flow.KCond && y.Expr != nil && fs.Cond.Pos() <= y.Expr.Pos() && y.Expr.End() <= fs.Cond.End() {
+					from = append(from, y)
+				}
+				if y.Kind == flow.KStmt && y.Stmt == step {
+					goal = y
+				}
+			}
+			if len(from) == 0 || goal == nil {
+				c.R.Unres(rule, construct+"/registered in every scope of the walk", c.pos(fs), "the walking loop's condition or step is not in the flow graph")
+				return true
+			}
+			p2 := g.Path(flow.Search{From: from, Goal: func(y *flow.Node) bool { return y == goal }, Avoid: added})
+			c.R.Check(p2 == nil, rule, construct+"/registered in every scope of the walk", c.pos(fs), "no path from the loop condition to the step to Parent goes around AddUndeclared("+ref+")",
+				"the walk up the Parent chain skips scopes: "+pathStr(c, g, p2)+" — a scope that is skipped (for instance because it declares nothing yet) can later receive a let/const from a merged block, which is then renamed to the hoisted variable's short name: `for(;;){if(e)break;else{let t=g();h(t,t)}var a=1}` with a hoisted `var z` gives `let t` and `var t` in one scope")
+			return true
+		})
 	}
 	c.R.Floor(rule, "hoisted refs", n, 1)
 }
